@@ -332,10 +332,15 @@ class VProcess:
         # Consecutive exitcode reads by one thread form one batch with a single scheduling point in front:
         # a read is a both-mover w.r.t. everything but the exit step of the process it reads, and exit steps of
         # different processes are independent, so any interleaving inside a batch is equivalent to one outside.
+        # (A batch holds at most one read per process: reading the SAME process again is a new observation - the process may
+        #  have exited in between - and gets a scheduling point of its own.)
         s = self.mp.sched
         me = s.current
-        if me.op[0] != "exitcode":
+        batch = getattr(me, "exitcode_batch", None)
+        if me.op[0] != "exitcode" or batch is None or self.name in batch:
             s.point(("exitcode", self.name))
+            batch = me.exitcode_batch = set()
+        batch.add(self.name)
         me.op = ("exitcode", self.name)
         me.obs.append(("exitcode", self.name, self._exitcode))
         return self._exitcode
@@ -461,21 +466,43 @@ def in_pool_file(filename):
     return any(filename.endswith(sfx) for sfx in POOL_FILES)
 
 
-def stack_digest(thread, filename_suffix=None, skip_locals=("_logger", "span", "last_task_ts", "qsize",
-                                                                             "context_carrier", "worker_args", "cap_stdout",
-                                                                             "cap_stderr", "worker_id", "pool_span", "self", "pool")):
+_SKIP_LOCALS = ("_logger", "span", "last_task_ts", "qsize", "context_carrier", "worker_args", "cap_stdout", "cap_stderr",
+                "worker_id", "pool_span", "self", "pool")
+
+
+def frame_digest(fr, skip_locals=_SKIP_LOCALS):
+    loc = fr.f_locals
+    items = []
+    for k in sorted(loc):
+        if k in skip_locals and not (k == "pool" and isinstance(loc[k], dict)):
+            continue
+        items.append(k + "=" + crepr(loc[k]))
+    return "%s@%d{%s}" % (fr.f_code.co_name, fr.f_lasti, ";".join(items))
+
+
+def stack_digest(thread, filename_suffix=None, skip_locals=_SKIP_LOCALS):
     if thread is None or thread.ident is None:
         return "nothread"
     fr = sys._current_frames().get(thread.ident)
     out = []
     while fr is not None:
         if (fr.f_code.co_filename.endswith(filename_suffix) if filename_suffix else in_pool_file(fr.f_code.co_filename)):
-            loc = fr.f_locals
-            items = []
-            for k in sorted(loc):
-                if k in skip_locals and not (k == "pool" and isinstance(loc[k], dict)):
-                    continue
-                items.append(k + "=" + crepr(loc[k]))
-            out.append("%s@%d{%s}" % (fr.f_code.co_name, fr.f_lasti, ";".join(items)))
+            out.append(frame_digest(fr, skip_locals))
         fr = fr.f_back
+    return "|".join(out)
+
+
+def suspended_generator_digest(gen):
+    """the state of a generator that is suspended at a yield (its frame is then on no thread's stack): the generator's own
+    frame and those of the generators it delegates to (yield from), for frames of the pool files"""
+    out = []
+    seen = 0
+    while gen is not None and seen < 8:
+        seen += 1
+        fr = getattr(gen, "gi_frame", None)
+        if fr is None or getattr(gen, "gi_running", False):
+            break
+        if in_pool_file(fr.f_code.co_filename):
+            out.append(frame_digest(fr))
+        gen = getattr(gen, "gi_yieldfrom", None)
     return "|".join(out)
